@@ -341,6 +341,17 @@ def templates(rng, w=None):
         if w >= 3:
             a, b2, c3 = _split3(r, w)
             T += [["concat", c_w(r, a), c_w(r, b2), g.bv(c3, 1)], ["concat", g.bv(a, 1), c_w(r, b2), c_w(r, c3)], ["concat", ["concat", g.bv(a, 1), g.bv(b2, 1)], g.bv(c3, 1)]]
+            # slices of one value around, before and after unrelated operands (the slice-merging rule keeps state
+            # across operands): adjacent, adjacent with something in between, overlapping, out of order, three in a row
+            hi, m = a + b2 + c3 + 2, b2 + c3 + 3
+            lo = r.randrange(0, 3)
+            up, dn = ["extract", hi, m, big], ["extract", m - 1, lo, big]
+            mid, mid2 = g.bv(r.choice([m - lo, a, 1]), 1), c_w(r, r.choice([1, 8]))
+            T += [["concat", up, mid, dn], ["concat", up, mid, mid2, dn], ["concat", mid, up, dn], ["concat", up, dn, mid], ["concat", dn, up], ["concat", up, dn, up, dn]]
+            T += [["concat", up, ["extract", m - 2, lo, big]], ["concat", up, ["extract", m, lo, big]], ["concat", up, mid, ["extract", m - 1, lo, g.bv(hi + 1, 1)]]]
+            if m - 1 - lo >= 2:
+                q = r.randrange(lo + 1, m - 1)
+                T += [["concat", up, ["extract", m - 1, q + 1, big], ["extract", q, lo, big]], ["concat", up, ["extract", m - 1, q + 1, big], mid, ["extract", q, lo, big]]]
     T += [["zext", 0, x], ["sext", 0, x]]
     if w >= 3:
         a, b2, _ = _split3(r, w)
